@@ -38,7 +38,9 @@ StaysInBox == px >= 0 /\ px < boxL
 SepInHalfBox == LET s == SepEntry(px, partner, boxL) IN s >= 0 - boxL \div 2 /\ s < boxL \div 2 /\ (px + s - partner) % boxL = 0
 MoveIsTranslation == [][\E v \in (0 - 2 * boxL) .. (2 * boxL) : (px' - px - v) % boxL = 0]_<<boxL, px, partner>>
 
-EmitTable == PrintT(<<"TABLE", ToJson(
+ASSUME TLCSet(7, 0)
+(* printed once: the table is a constant, but TLC would re-evaluate (and re-serialise) it in every state *)
+EmitTable == TLCGet(7) = 1 \/ (TLCSet(7, 1) /\ PrintT(<<"TABLE", ToJson(
     [pos |-> {<<l, p, CorrectPos(p, l)>> : l \in Lengths, p \in (0 - Span * 20) .. (Span * 20)},
-     sep |-> {<<l, s, CorrectSep(s, l)>> : l \in Lengths, s \in (0 - Span * 20) .. (Span * 20)}])>>)
+     sep |-> {<<l, s, CorrectSep(s, l)>> : l \in Lengths, s \in (0 - Span * 20) .. (Span * 20)}])>>))
 =============================================================================
